@@ -15,7 +15,8 @@ EXPLANATION = ("Static analysis of system::analysis::cone_of_influence_impl and 
 ASSUMPTIONS = ["sufficiency follows from completeness of the traversal by induction over the expression structure; the induction itself is not mechanised",
                "for_each_child enumerates all children (T1, decided under C01/C06)"]
 LEVEL_TEXT = ("Static guard-set / who-may-push analysis of the work-list algorithm for all roots and systems at once: decides completeness (nothing reachable through the relevant links is skipped) "
-              "and tightness (nothing else is added), the structural content of 'sufficient and syntactically tight'. The semantic sufficiency argument is by induction on this shape and is not mechanised.")
+              "and tightness (nothing else is added), the structural content of 'sufficient and syntactically tight'. The semantic sufficiency argument is by induction on this shape and is not mechanised."
+              " The two look-up structures the traversal trusts (state map, input set) hold every state / input of the system, unfiltered.")
 LEVEL_NOTE = "Shape rule at an anchor with one simple shape today; a rewrite of the traversal into another algorithm is reported as UNRECOGNISED (fail closed)."
 TECHNIQUE = "guard-set extraction and who-may-push / who-may-mark rules on the structured control flow; truth-table equivalence of the output predicate"
 
